@@ -33,7 +33,7 @@ STUBBED = ["none inside the calls; sequenceParameters.print / backendtools chatt
 ASSUMPTIONS = ["positions are Python ints (single, list or tuple); other types are outside the statement and not generated",
                "derived values are compared with the real code on a fresh object built from the substituted string (tolerance 1e-12)",
                "calls are atomic; interleaving = which live object's call runs next"]
-PROBES = ["shuffled_copy_is_live_object", "object_created_mid_history", "related_objects", "pos_zero", "pos_negative", "pos_N_plus_1", "pos_huge", "dup_in_call", "dup_across_calls", "non_sty_in_range",
+PROBES = ["caller_scribbles_on_returned_container", "op_not_followed_by_observation", "shuffled_copy_is_live_object", "object_created_mid_history", "related_objects", "pos_zero", "pos_negative", "pos_N_plus_1", "pos_huge", "dup_in_call", "dup_across_calls", "non_sty_in_range",
           "set_after_clear", "dist_k_ge_3", "kappa_after_with_sites", "tuple_arg", "int_arg", "hostile_with_sites_held",
           "second_object_checked"]
 STY = "STY"
@@ -107,6 +107,12 @@ def gen_plan(streams, tier):
             ops.append({"k": "clear", "o": o})
         else:
             ops.append({"k": "obs", "o": o, "w": rnd.choice(("sites", "pseq", "pseq", "kappa", "kappa", "dist", "all", "seq"))})
+    lazy = rnd.random() < 0.4          # observers only where the plan has them (looking is itself a call)
+    for op in ops:
+        if op["k"] == "obs" and op["w"] in ("sites", "all", "dist") and rnd.random() < 0.3:
+            op["scribble"] = True
+        if lazy and op["k"] in ("set", "clear"):
+            op["quiet"] = True
     nnew = sum(1 for op in ops if op["k"] in ("new", "copy"))
     return {"property": ID, "run_seed": streams.run_seed, "objects": objs[:len(objs) - nnew], "ops": ops}
 
@@ -139,6 +145,10 @@ def corpus():
         {"k": "obs", "o": 1, "w": "pseq"}, {"k": "copy", "o": 0, "via": "shuffle_frozen_all"}, {"k": "obs", "o": 2, "w": "sites"},
         {"k": "set", "o": 2, "t": "int", "v": [7]}, {"k": "obs", "o": 0, "w": "sites"}, {"k": "obs", "o": 0, "w": "kappa"},
         {"k": "copy", "o": 0, "via": "permutant"}, {"k": "obs", "o": 3, "w": "sites"}, {"k": "clear", "o": 0}, {"k": "obs", "o": 2, "w": "dist"}]}))
+    out.append(("caller_edits_returned_lists", {"property": ID, "run_seed": 165, "objects": ["GSKETGSKETY"], "ops": [
+        {"k": "obs", "o": 0, "w": "all", "scribble": True}, {"k": "set", "o": 0, "t": "list", "v": [2, 5, 1]}, {"k": "obs", "o": 0, "w": "sites", "scribble": True},
+        {"k": "obs", "o": 0, "w": "pseq"}, {"k": "set", "o": 0, "t": "int", "v": [7]}, {"k": "obs", "o": 0, "w": "all", "scribble": True},
+        {"k": "clear", "o": 0}, {"k": "set", "o": 0, "t": "tuple", "v": [11, 2, 3]}, {"k": "obs", "o": 0, "w": "dist"}]}))
     out.append(("order_is_first_set_order", {"property": ID, "run_seed": 162, "objects": ["SKTEYKSET"], "ops": [
         {"k": "set", "o": 0, "t": "list", "v": [7, 1, 5]}, {"k": "set", "o": 0, "t": "list", "v": [3, 7]},
         {"k": "obs", "o": 0, "w": "dist"}, {"k": "obs", "o": 0, "w": "kappa"}]}))
@@ -191,10 +201,15 @@ def execute(plan, ctx):
             raise Violation("sequence_changed", "sequence_changed", "object %d: stored sequence is now %r, was %r" % (
                 i, objs[i].get_sequence(), seqs[i]))
 
-    def observe(i, w):
+    def observe(i, w, scrib=False):
         k = len(model[i])
         if w == "sites":
             check_basic(i, "observer")
+            if scrib:
+                got = objs[i].get_phosphosites()
+                if isinstance(got, list):
+                    got.reverse(); got.append(1)
+                    ctx.probe("caller_scribbles_on_returned_container")
         elif w == "seq":
             check_basic(i, "observer")
         elif w == "all":
@@ -202,6 +217,9 @@ def execute(plan, ctx):
             want = [j + 1 for j, c in enumerate(seqs[i]) if c in STY]
             if list(got) != want:
                 raise Violation("all_sites_mismatch", "all_sites", "get_all_phosphorylatable_sites()=%r want %r" % (got, want))
+            if scrib and isinstance(got, list):
+                got.reverse(); got.append(1); got.append(len(seqs[i]) + 5)     # a caller edits the list it was handed
+                ctx.probe("caller_scribbles_on_returned_container")
         elif w == "pseq":
             got = objs[i].get_phosphosequence()
             if got != sub(i):
@@ -332,8 +350,11 @@ def execute(plan, ctx):
             ctx.sig("clear", len(objs))
         else:
             ctx.sig("obs", op["w"], min(len(model[i]), 6), len(objs))
-            observe(i, op["w"])
+            observe(i, op["w"], bool(op.get("scribble")))
             ctx.log.emit("obs", o=i, w=op["w"], k=len(model[i]))
+        if op.get("quiet"):
+            ctx.probe("op_not_followed_by_observation")
+            continue
         # after every op: every live object's list and sequence follow the model
         for j in range(len(objs)):
             check_basic(j, "after op %d (%s on object %d)" % (n, op["k"], i))
